@@ -459,7 +459,7 @@ func nonNil(s []string) []string {
 func round3(f float64) float64 { return float64(int(f*1000+0.5)) / 1000 }
 
 func sanitize(s string) string {
-	return strings.NewReplacer("/", "_", "(", "", ")", "", "*", "", ":", "-", " ", "_", "@", "-", "|", "_").Replace(s)
+	return strings.NewReplacer("/", "_", "(", "", ")", "", "*", "", ":", "-", " ", "_", "@", "-", "|", "_", "$", "-lit").Replace(s)
 }
 
 func writeEvidence(path string, ev *Evidence) {
